@@ -57,7 +57,7 @@ def units(tier):
         pu(bo.add_with_carry, [('x', U(w)), ('y', U(w)), ('carry_in', U(1)), ('size', K(w))], 'w%d' % w)
         if w <= 32:
             pu(bo.lowest_set_bit_ref, [('x', U(w)), ('length', K(w))], 'w%d' % w)
-        sh_amt = R(1, 255)
+        sh_amt = R(0, 255)
         pu(sh.lsl_c, [('x', U(w)), ('x_len', K(w)), ('shift', sh_amt)], 'w%d' % w)
         pu(sh.lsr_c, [('x', U(w)), ('x_len', K(w)), ('shift', sh_amt)], 'w%d' % w)
         pu(sh.asr_c, [('x', U(w)), ('x_len', K(w)), ('shift', sh_amt)], 'w%d' % w)
@@ -70,13 +70,13 @@ def units(tier):
         pu(sh.ror, [('x', U(w)), ('x_len', K(w)), ('shift', amt0)], 'w%d' % w)
         pu(sh.rrx, [('x', U(w)), ('x_len', K(w)), ('carry_in', U(1))], 'w%d' % w)
         for t in sh.SRType:
-            amt = K(1) if t is sh.SRType.RRX else amt0
+            amt = R(0, 3) if t is sh.SRType.RRX else amt0
             pu(sh.shift_c, [('value', U(w)), ('value_len', K(w)), ('type_o', K(t)), ('amount', amt), ('carry_in', U(1))],
                'w%d,%s' % (w, t.name))
             pu(sh.shift, [('value', U(w)), ('value_len', K(w)), ('type_o', K(t)), ('amount', amt), ('carry_in', U(1))],
                'w%d,%s' % (w, t.name))
-    pu(sh.decode_imm_shift, [('type_o', U(2)), ('imm5', U(5))])
-    pu(sh.decode_reg_shift, [('type_o', U(2))])
+    pu(sh.decode_imm_shift, [('type_o', U(3)), ('imm5', U(5))])
+    pu(sh.decode_reg_shift, [('type_o', U(3))])
     pu(sh.arm_expand_imm_c, [('imm12', U(12)), ('carry_in', U(1))])
     pu(sh.arm_expand_imm, [('imm12', U(12))])
 
